@@ -96,7 +96,7 @@ class Gen:
             "max_depth": 2, "scalar_sub": True, "corr": True, "nulls_first": True,
             "limit": True, "dom": 3, "values": False, "grouping_sets": False, "mixed_width_keys": False, "outer_chains": False, "nonnull_col_p": 0.3,
             "group_keys_nonnull": False, "distinct_nonnull": False,
-            "setop_p": 0.15, "order_p": 0.6, "cte_p": 0.15, "group_p": 0.35, "const_atoms": True, "notin_sub": True, "limit_p": 0.6, "offset_p": 0.5, "min_order_keys": 1, "where_p": 0.7, "distinct_order_keys": False,
+            "setop_p": 0.15, "order_p": 0.6, "cte_p": 0.15, "group_p": 0.35, "const_atoms": True, "notin_sub": True, "limit_p": 0.6, "offset_p": 0.5, "min_order_keys": 1, "where_p": 0.7, "distinct_order_keys": False, "alias_p": 1.0,
         }
         if opts:
             self.o.update(opts)
@@ -354,6 +354,10 @@ class Gen:
             al = self.fresh("d")
             return (f"({q.sql}) AS {al}", {"k": "sub", "q": q.m}, [Col(al, n, t) for (n, t) in q.cols])
         t = r.choice(tables)
+        if not self.o["joins"] and outer is None and r.random() >= self.o["alias_p"]:
+            # bare table, bare column names: the planner's scan-direct fast paths only fire without a SubqueryAlias
+            return (t.name, {"k": "table", "name": t.name},
+                    [Col(None, n, ty, base=True, nullable=(n not in t.nonnull)) for (n, ty) in t.cols])
         al = self.fresh("x")
         return (f"{t.name} AS {al}", {"k": "table", "name": t.name},
                 [Col(al, n, ty, base=True, nullable=(n not in t.nonnull)) for (n, ty) in t.cols])
@@ -1376,11 +1380,17 @@ class Shapes2(OptShapes):
         rows = [[r.randint(0, 4), r.choice([0, 1, 2, 5, None]), r.randint(0, 2)] for _ in range(n)]
         return self.tab("t0", [("g0", "int"), ("v0", "int"), ("h0", "int")], rows, ("g0", "h0"))
 
+    def tref(self, t):
+        """(FROM text, Scope) for a single table: half the time unaliased with bare column names"""
+        if self.rng.random() < 0.5:
+            return t.name, Scope([Col(None, n, ty, base=True, nullable=(n not in t.nonnull)) for (n, ty) in t.cols])
+        a = self.fresh("x")
+        return f"{t.name} AS {a}", Scope(self.cols(t, a))
+
     def s2_having_topn(self):
         r = self.rng
         t0 = self._fact()
-        a0 = self.fresh("x")
-        sc = Scope(self.cols(t0, a0))
+        a0, sc = self.tref(t0)
         keys = [sc.ref(0, 0)] + ([sc.ref(0, 2)] if r.random() < 0.4 else [])
         f = r.choice(["sum", "count", "max", "min"])
         aggs = [self.agg_e(f, sc.ref(0, 1)), self.agg_e("count*", None)]
@@ -1388,7 +1398,7 @@ class Shapes2(OptShapes):
         having = self.cmp(g.ref(0, len(keys) + r.randint(0, 1)), r.choice([">", ">=", "<", "<>"]), Lit("int", r.randint(0, 3)))
         proj = [g.ref(0, i) for i in range(len(keys) + 2)]
         order = [(i, r.randint(0, 1)) for i in range(len(keys))]
-        q = self.sel(f"t0 AS {a0}", {"k": "table", "name": "t0"}, proj, group=(keys, aggs, having if r.random() < 0.8 else None),
+        q = self.sel(a0, {"k": "table", "name": "t0"}, proj, group=(keys, aggs, having if r.random() < 0.8 else None),
                      order=order, limit=r.randint(1, 3))
         if r.random() < 0.4:
             off = r.randint(1, 2)
@@ -1399,11 +1409,10 @@ class Shapes2(OptShapes):
     def s2_topn_offset(self):
         r = self.rng
         t0 = self._fact(r.randint(4, 10))
-        a0 = self.fresh("x")
-        sc = Scope(self.cols(t0, a0))
+        a0, sc = self.tref(t0)
         proj = [sc.ref(0, 0), sc.ref(0, 1), sc.ref(0, 2)]
         w = self.cmp(sc.ref(0, 2), r.choice([">=", "<>", "<"]), Lit("int", r.randint(0, 2))) if r.random() < 0.5 else None
-        q = self.sel(f"t0 AS {a0}", {"k": "table", "name": "t0"}, proj, where=w, order=[(0, r.randint(0, 1)), (1, r.randint(0, 1)), (2, 0)], limit=r.randint(0, 4))
+        q = self.sel(a0, {"k": "table", "name": "t0"}, proj, where=w, order=[(0, r.randint(0, 1)), (1, r.randint(0, 1)), (2, 0)], limit=r.randint(0, 4))
         if r.random() < 0.7:
             off = r.randint(1, 5)
             q.sql += f" OFFSET {off}"
@@ -1561,11 +1570,10 @@ class Shapes2(OptShapes):
         if r.random() < 0.8:
             rows.append([wide, r.randint(0, 3), 1])
         t0 = self.tab("t0", [("g0", "int"), ("v0", "int"), ("h0", "int")], rows, ("g0", "h0"))
-        a0 = self.fresh("x")
-        sc = Scope(self.cols(t0, a0))
+        a0, sc = self.tref(t0)
         keysx = [sc.ref(0, 0)]
-        aggs = [self.agg_e("count*", None), self.agg_e(r.choice(["sum", "min", "max", "count"]), sc.ref(0, 1))]
+        aggs = [self.agg_e("count*", None), self.agg_e(r.choice(["sum", "sum", "count", "min", "max"]), sc.ref(0, 1 if r.random() < 0.5 else 2))]
         if r.random() < 0.4:
             aggs.append(E(f"AVG({sc.ref(0, 2).sql})", {"f": "avg", "a": sc.ref(0, 2).m, "distinct": 0}, "avg_int"))
         g = self.gref(keysx, aggs)
-        return self.sel(f"t0 AS {a0}", {"k": "table", "name": "t0"}, [g.ref(0, i) for i in range(1 + len(aggs))], group=(keysx, aggs, None)), [t0]
+        return self.sel(a0, {"k": "table", "name": "t0"}, [g.ref(0, i) for i in range(1 + len(aggs))], group=(keysx, aggs, None)), [t0]
